@@ -901,6 +901,53 @@ def oracleC09 (p : Parsed) (fs : List (String × String)) : Option String :=
       | none => none
   | _ => none
 
+/-- C10: in a clean scenario (a) nothing is rejected for size when every representation of every
+    message fits; (b) a request message whose inflated or re-encoded form exceeds the limit on a
+    path that buffers it makes the RPC fail with resource_exhausted and is not handed to the backend. -/
+def oracleC10 (p : Parsed) (ex : Expect) (fs : List (String × String)) : Option String :=
+  match branchOf p with
+  | .transcoded o =>
+    if fieldOf fs "disp" != "svc" then none else
+    let code := match (fieldOf fs "end").splitOn ":" with
+      | [_, c, _, _] => c.toNat?
+      | _ => none
+    if ex.sizesSafe && code == some 8 && ex.errCode != 8 then some "rejected for size although every representation of every message fits" else
+    if !ex.readsAll then none else
+    let L := o.conf.maxMsg
+    let pl := o.plan fakeWorld
+    let buffering := !(pl.sameReqCompression && pl.sameReqCodec && !pl.mustDecode)
+    match o.clientEnveloper with
+    | none => none
+    | some _ =>
+      if !buffering then none else
+      let body := p.sc.src.chunks.flatten
+      let (frames, whole) := framesAndRest (body.length + 1) body
+      if !whole then none else
+      -- index of the first message with an oversized representation (wire, inflated or re-encoded)
+      let oversized (f : UInt8 × Bytes) : Bool :=
+        let wire := f.2
+        let dec : Bytes := if f.1 == 1 then
+            (match o.cReqComp with
+             | some z => if wire.isEmpty then wire else (fakeWorld.decompress z wire).getD []
+             | none => wire)
+          else wire
+        let reenc : Bytes := if o.ccodec == o.scodec then dec else
+          (match fakeWorld.decode o.ccodec dec with
+           | some v => fakeWorld.encode o.scodec v
+           | none => [])
+        wire.length > L || dec.length > L || reenc.length > L
+      match frames.findIdx? oversized with
+      | none => none
+      | some i =>
+        if code == some 0 then some s!"request message {i} has a representation above the limit on a buffering path, yet the client saw success"
+        else
+          let br := (fromHex (fieldOf fs "br")).getD []
+          let got : Nat := match o.serverEnveloper with
+            | some _ => (framesAndRest (br.length + 1) br).1.length
+            | none => if br.isEmpty then 0 else 1
+          if got > i then some s!"oversized request message {i} was handed to the backend" else none
+  | _ => none
+
 def controlKeys : List Bytes :=
   ["Content-Type", "Content-Length", "Content-Encoding", "Accept-Encoding", "Te", "Trailer", "Grpc-Timeout", "Grpc-Encoding",
    "Grpc-Accept-Encoding", "Grpc-Status", "Grpc-Message", "Grpc-Status-Details-Bin", "Connect-Timeout-Ms",
@@ -955,6 +1002,7 @@ def specE2E (prop : String) (hexJson : String) (res : List String) : String :=
       | "C02" => some (oracleC02 p fs)
       | "C19" => some (oracleC19 p fs)
       | "C09" => some (oracleC09 p fs)
+      | "C10" => (parseExpect p.json).map fun ex => oracleC10 p ex fs
       | "C01" => (parseExpect p.json).map fun ex => oracleC01 p ex fs
       | "C04" => (parseExpect p.json).map fun ex => oracleC04 p ex fs
       | "C05" => some (oracleC05 p (parseExpect p.json) fs)
